@@ -159,6 +159,73 @@ pub fn slot_domain(level: usize) -> Vec<Slot> {
     out
 }
 
+/// a digest that differs from `d` in exactly one limb (position `k` or random)
+pub fn limb_neighbour(rng: &mut impl Rng, d: &D4, k: Option<usize>) -> D4 {
+    let k = k.unwrap_or_else(|| rng.gen_range(0..4));
+    let mut o = *d;
+    let delta = match rng.gen_range(0..4) {
+        0 => F::ONE,
+        1 => f(1 << 32),
+        2 => f(crate::leaf::P - 1),
+        _ => f(rng.gen_range(1..crate::leaf::P)),
+    };
+    o[k] += delta;
+    o
+}
+
+/// rewrites an (accepted-shape) vector so that every digest comparison of the private wrapper sees
+/// operands that differ in limb `k` only: exit accounts of different slots and of the same slot,
+/// nullifiers of real slots, the block hash against the all-zero dummy sentinel; with `mismatch`
+/// one real slot's block hash additionally becomes a one-limb neighbour of the reference (rejected)
+pub fn near_equal_vector(rng: &mut impl Rng, n: usize, k: usize, mismatch: bool) -> (Vec<Slot>, Vec<D4>) {
+    let (mut slots, pre) = random_vector(rng, n, Inject::None);
+    // at least two real slots when there is room
+    let mut block = [F::ZERO; 4];
+    block[k] = f(rng.gen_range(1..crate::leaf::P));
+    let want_real = if n >= 2 { rng.gen_range(2..=n) } else { 1 };
+    let asset = slots[0].asset;
+    let fee = f(rng.gen_range(0..=10000));
+    let number = f(rng.gen_range(0..=M32));
+    let acct = rand_d4(rng);
+    let nul = rand_d4(rng);
+    let budget: u64 = M32 / (2 * n as u64).max(1);
+    for (i, s) in slots.iter_mut().enumerate() {
+        if i < want_real {
+            *s = Slot {
+                asset,
+                out1: f(rng.gen_range(1..=budget)),
+                out2: f(rng.gen_range(1..=budget)),
+                fee,
+                nullifier: if i == 0 { nul } else { limb_neighbour(rng, &nul, Some(k)) },
+                exit1: if i == 0 { acct } else { limb_neighbour(rng, &acct, Some(k)) },
+                exit2: if rng.gen_bool(0.5) { acct } else { limb_neighbour(rng, &acct, Some(k)) },
+                block_hash: block,
+                number,
+            };
+        } else {
+            // dummy whose fields are one-limb neighbours of the real ones
+            s.block_hash = [F::ZERO; 4];
+            s.asset = asset;
+            s.nullifier = limb_neighbour(rng, &nul, Some(k));
+            s.exit1 = limb_neighbour(rng, &acct, Some(k));
+        }
+    }
+    // distinct nullifiers among real slots
+    for i in 1..want_real {
+        while (0..i).any(|j| slots[j].nullifier == slots[i].nullifier) {
+            slots[i].nullifier = limb_neighbour(rng, &nul, Some(k));
+        }
+    }
+    if mismatch && want_real >= 2 {
+        let i = rng.gen_range(0..want_real);
+        slots[i].block_hash = if rng.gen_bool(0.5) { limb_neighbour(rng, &block, Some(k)) } else { limb_neighbour(rng, &block, None) };
+        if slots[i].block_hash == [F::ZERO; 4] {
+            slots[i].block_hash[k] = block[k] + F::ONE;
+        }
+    }
+    (slots, pre)
+}
+
 #[derive(Clone, Copy, Debug, PartialEq, Eq)]
 pub enum Inject {
     None,
@@ -187,6 +254,10 @@ pub fn random_vector(rng: &mut impl Rng, n: usize, inject: Inject) -> (Vec<Slot>
     }
     if rng.gen_bool(0.3) {
         accts.push([F::ZERO; 4]);
+    }
+    if rng.gen_bool(0.3) {
+        // one-limb neighbour of an account in use
+        accts.push(limb_neighbour(rng, &accts[0].clone(), None));
     }
     let k_real = match rng.gen_range(0..6) {
         0 => 0,
@@ -243,6 +314,9 @@ pub fn random_vector(rng: &mut impl Rng, n: usize, inject: Inject) -> (Vec<Slot>
     if reals.len() >= 2 && rng.gen_bool(0.3) {
         let base = slots[reals[0]].nullifier;
         slots[reals[1]].nullifier = equal_alias_digest(rng, &base);
+    } else if reals.len() >= 2 && rng.gen_bool(0.25) {
+        let base = slots[reals[0]].nullifier;
+        slots[reals[1]].nullifier = limb_neighbour(rng, &base, None);
     }
     match inject {
         Inject::None => {}
